@@ -2131,6 +2131,16 @@ func (s *swamp) SaveFunction(t treasure.Treasure, guardID guard.ID) treasure.Tre
 		// treasure may still be sitting in the write buffer. We must remove it first,
 		// otherwise beacon.Add silently drops the new treasure (key already exists)
 		// and only the OpDelete gets flushed — causing data loss after swamp reopen.
+		// The old record may already be on disk (its delete marker has a file pointer).
+		// Hand that pointer over to the re-created treasure: otherwise a second delete
+		// before the next flush finds GetFileName()==nil, merely drops the new treasure
+		// from the write buffer, no delete entry is ever written and the OLD record is
+		// back after the next reload.
+		if pending := s.treasuresWaitingForWriter.Get(t.GetKey()); pending != nil && pending != t {
+			if fn := pending.GetFileName(); fn != nil && t.GetFileName() == nil {
+				t.BodySetFileName(guardID, *fn)
+			}
+		}
 		s.treasuresWaitingForWriter.Delete(t.GetKey())
 
 		// add the treasure to the treasuresWaitingForWriter index
